@@ -14,6 +14,28 @@ CHECKS = {
    "DESIGN.md section 5 C07"),
 }
 
+# scenario classes added after the first version of each check (rounds 7-10 of the seeded changes, own additions)
+ADDED = {
+ "C01": "serialized delivery with a failing handler (cluster build); thread-local actors through the Actor-trait adapter.",
+ "C02": "derived wrong-type sends; a decision point right after a recv of the actor core produced a value; thread-local receivers with supervision events.",
+ "C03": "long runs of supervision events (0..257 handled one by one, then a held handler, a burst and one message); stop with reason 'killed'; two killers / two stoppers; a child's exit at step granularity.",
+ "C04": "callbacks that panic in their synchronous prelude (explicit fn -> impl Future form), all five callbacks, both kinds, with the panic of pre_start caught in the spawner's own task.",
+ "C05": "cluster build: local actors and remote stand-ins with overlapping process numbers in one subtree; a link into a descendant of an exiting actor (closed child set, status still Running), complete schedule tree; task drop with a panicking state destructor.",
+ "C06": "monitors build: a monitor that is gone, going, or alive next to a dead one; waits on an actor whose start-up task has not run yet; a pg racer during the exit; twin closers; a state destructor that panics.",
+ "C09": "the caller of multi_call preemptible before each channel operation; a callee that is a supervisor stuck in its supervision handler when it is killed; call! / call_t! macro callers; repeated members.",
+ "C10": "cluster build: stand-ins with a local holder's name (and process number).",
+ "C11": "a monitor installed while a join is under way (a later query that does not list the member proves the join took effect afterwards); two groups of one scope; draining actors; remote-id cells.",
+ "C12": "one-shot timers against a target inside a slow post_stop or draining a slow backlog; timers armed while the target is starting; derived references.",
+ "C13": "two-worker pools with a worker lingering in post_stop; a factory started with zero workers; a replaced discard handler; TTL sweeps during which time passes.",
+ "C14": "scripted six-event histories: a worker with two keys queued reports completion and dies, the pool grows, the key is dispatched again.",
+ "C15": "a discard limit introduced at run time; Dynamic limits lowered by their controller; zero-size pool requests; regrow over a busy retiring worker.",
+ "C16": "v2: a subscriber stopping between two sends of one batch, two or three subscribers found stopped in one pass; v1: repeated lag, a subscribe racing a publication (RwLock facade).",
+ "C17": "a peer without the cookie that predicts the node's next challenge from earlier handshakes and reflects the node's own digest (14 observation histories x 8 predictors, real state machines); actors spawned after the session is ready.",
+ "C18": "three real nodes; a third node played by the harness that advertises the address of an established peer (or none); scripted peers with boundary connection ids and an oracle that names the connection the rule picks.",
+ "C19": "the plain-TCP arm of the frame reader through a stand-in read half with tokio's readiness semantics; encode/decode round trip of derived call variants with several same-typed fields behind the port; job metadata round trips.",
+ "C20": "a task inside pg::join / pg::leave preemptible at its own steps while the actor exits or is joined again (engine option park_preempted: one deviation = everything else happens inside the window); join / leave lists mixing remotable and local-only actors; a link that loses its send direction only; frames arriving in pieces with stalls.",
+}
+
 CHECKS.update({
  "C01": ("vsched", "stateless model checking of the real actor loop: deviation-bounded DFS over task-level schedules x scenario grid, trace-automaton oracle",
    "For each scenario (Send / thread-local actor x spawn variant x callback program incl. Err/panic/self-kill x exit cause incl. a stopper, a drainer and a killer racing x racing senders, child exit, two pg events) every task-level schedule with at most 2 (quick) / 3 (thorough, core set) deviations from the FIFO default is executed on the real code; a per-actor automaton over the Enter/Tick/Exit/Cancelled trace decides overlap, order, once-ness and the post_stop rules.",
@@ -104,7 +126,7 @@ def main():
             "evidence_file": f"/verif/evidence/{pid}.json",
             "replay_cmd_template": "./check replay {path}",
             "engine": engine,
-            "level_claimed": {"category": "model_checking", "text": text, "design_ref": ref},
+            "level_claimed": {"category": "model_checking", "text": text + (" Added later (DESIGN.md 10.7): " + ADDED[pid] if pid in ADDED else ""), "design_ref": ref},
             "level_note": note,
             "technique": technique,
         })
